@@ -23,23 +23,25 @@ THEOREMS = [
     'AbacusVerif.Mass.tsc_axis_weights_nonneg',
     'AbacusVerif.Mass.cic_axis_weights_sum',
     'AbacusVerif.Mass.cic_axis_weights_nonneg',
+    'AbacusVerif.Mass.axis_indices_inbounds_any_ix',
     'AbacusVerif.Mass.axis_indices_inbounds',
     'AbacusVerif.Mass.tsc_axis_is_kernel',
     'AbacusVerif.Mass.cic_axis_is_kernel',
+    'AbacusVerif.Mass.covers_exists',
     'AbacusVerif.Mass.scatter_no_fault',
     'AbacusVerif.Mass.deposit_is_kernel',
+    'AbacusVerif.Mass.deposit_is_kernel_2d',
+    'AbacusVerif.Mass.deposit_superposition',
     'AbacusVerif.Mass.total_conserved',
     'AbacusVerif.Mass.deposit_nonneg',
     'AbacusVerif.Mass.additive',
+    'AbacusVerif.Mass.additive_seq',
     'AbacusVerif.Mass.perm_invariant',
     'AbacusVerif.Mass.axis_roll_equivariant',
     'AbacusVerif.Mass.roll_equivariant',
     'AbacusVerif.Mass.wrap_inplace_spec',
+    'AbacusVerif.Mass.wrapInplace_spec',
 ]
-import os as _os
-if _os.environ.get('C06_DEV'):   # TEMP-DEV
-    THEOREMS = []
-    LEAN_MODULES = ['AbacusVerif.Model.C06']
 DRIVER = 'drv_c06'
 RULE = ('one case = one particle set (positions, weights) x grid shape x box x offset x dtypes x supplied grid x '
         'wrap flag, run through every applicable entry point (_tsc_scatter compiled / py_func, tsc_parallel '
